@@ -131,6 +131,9 @@ pub struct MultiExecMatcher {
     exec_in_parent_dir: bool,
     /// Command to build while matching.
     command: RefCell<Option<argmax::Command>>,
+    /// The number of paths it has been given so far: a command line without
+    /// any (none fitted behind the fixed arguments) is not run.
+    paths: RefCell<usize>,
 }
 
 impl MultiExecMatcher {
@@ -155,6 +158,7 @@ impl MultiExecMatcher {
             args: transformed_args,
             exec_in_parent_dir,
             command: RefCell::new(None),
+            paths: RefCell::new(0),
         })
     }
 
@@ -193,24 +197,34 @@ impl Matcher for MultiExecMatcher {
         let mut command = self.command.borrow_mut();
         let command = command.get_or_insert_with(|| self.new_command());
 
+        let mut paths = self.paths.borrow_mut();
+
         // Build command, or dispatch it before when it is long enough.
-        if command.try_arg(&path_to_file).is_err() {
-            // Paths like "foo" are in the current directory: avoid chdir("").
-            if let Some(dir) = dir.filter(|dir| !dir.as_os_str().is_empty()) {
-                command.current_dir(dir);
+        if command.try_arg(&path_to_file).is_ok() {
+            *paths += 1;
+        } else {
+            if *paths > 0 {
+                // Paths like "foo" are in the current directory: avoid chdir("").
+                if let Some(dir) = dir.filter(|dir| !dir.as_os_str().is_empty()) {
+                    command.current_dir(dir);
+                }
+                self.run_command(command, matcher_io);
             }
-            self.run_command(command, matcher_io);
 
             // Reset command status.
             *command = self.new_command();
-            if let Err(e) = command.try_arg(&path_to_file) {
-                let _ = writeln!(
-                    &mut stderr(),
-                    "Cannot fit a single argument {}: {}",
-                    &path_to_file.to_string_lossy(),
-                    e
-                );
-                matcher_io.set_exit_code(1);
+            *paths = 0;
+            match command.try_arg(&path_to_file) {
+                Ok(_) => *paths = 1,
+                Err(e) => {
+                    let _ = writeln!(
+                        &mut stderr(),
+                        "Cannot fit a single argument {}: {}",
+                        &path_to_file.to_string_lossy(),
+                        e
+                    );
+                    matcher_io.set_exit_code(1);
+                }
             }
         }
         true
@@ -221,8 +235,10 @@ impl Matcher for MultiExecMatcher {
         if self.exec_in_parent_dir {
             let mut command = self.command.borrow_mut();
             if let Some(mut command) = command.take() {
-                command.current_dir(Path::new(".").join(dir));
-                self.run_command(&mut command, matcher_io);
+                if self.paths.replace(0) > 0 {
+                    command.current_dir(Path::new(".").join(dir));
+                    self.run_command(&mut command, matcher_io);
+                }
             }
         }
     }
@@ -232,7 +248,9 @@ impl Matcher for MultiExecMatcher {
         if !self.exec_in_parent_dir {
             let mut command = self.command.borrow_mut();
             if let Some(mut command) = command.take() {
-                self.run_command(&mut command, matcher_io);
+                if self.paths.replace(0) > 0 {
+                    self.run_command(&mut command, matcher_io);
+                }
             }
         }
     }
